@@ -7,6 +7,8 @@ package world
 
 import (
 	"context"
+	"crypto/md5"
+	"encoding/hex"
 	"errors"
 	"fmt"
 	"sort"
@@ -238,14 +240,9 @@ func (a *API) canonicalName(ctx context.Context, obj client.Object) string {
 	base := obj.GetGenerateName()
 	switch o := obj.(type) {
 	case *v1.ExtendedDaemonSetReplicaSet:
-		h := o.Spec.TemplateGeneration
-		if len(h) > 6 {
-			h = h[:6]
-		}
-		if h == "" {
-			h = "nohash"
-		}
-		base += h
+		// a function of namespace and template: distinct namespaces get distinct names, like random suffixes do
+		sum := md5.Sum([]byte(o.Namespace + "/" + o.Spec.TemplateGeneration))
+		base += hex.EncodeToString(sum[:])[:6]
 	case *corev1.Pod:
 		n := o.Spec.NodeName
 		if n == "" {
